@@ -45,6 +45,7 @@ pub fn run(out: &mut Out, seed: u64, tier: &str) {
             (vec!["--forcefield=RB", "in.xyz"], "in.xyz"), (vec!["-fRB", "in.xyz"], "in.xyz"), (vec!["-f", "RB", "in.xyz"], "in.xyz"),
             (vec!["in.xyz", "-f", "uff"], "in.xyz"), (vec!["in.xyz", "-f", "MMFF94"], "in.xyz"), (vec!["in.xyz", "--forcefield", ""], "in.xyz"),
             (vec!["in.txt"], "in.txt"), (vec!["in"], "in"), (vec!["in.xyz.bak", "-f", "RB"], "in.xyz.bak"),
+            (vec!["sub/in.xyz"], "sub/in.xyz"), (vec!["sub/deeper/in.xyz", "-f", "RB"], "sub/deeper/in.xyz"), (vec!["--forcefield=UFF", "./in.xyz"], "./in.xyz"),
             (vec!["missing.xyz"], "in.xyz"), (vec![], "in.xyz"), (vec!["in.xyz", "extra.xyz"], "in.xyz"), (vec!["in.xyz", "-f"], "in.xyz"),
         ];
         for (vi, (args, fname)) in variants.iter().enumerate() {
@@ -52,12 +53,17 @@ pub fn run(out: &mut Out, seed: u64, tier: &str) {
             let dir = format!("/var/tmp/optrs-verif-scratch/c15-{}-{}-{}", std::process::id(), k, vi);
             let _ = std::fs::remove_dir_all(&dir);
             std::fs::create_dir_all(&dir).unwrap();
+            if let Some(parent) = std::path::Path::new(&format!("{}/{}", dir, fname)).parent() { std::fs::create_dir_all(parent).unwrap(); }
             std::fs::write(format!("{}/{}", dir, fname), &text).unwrap();
             let pre_existing = vi % 2 == 0;
             if pre_existing { std::fs::write(format!("{}/opt.xyz", dir), &sentinel).unwrap(); }
             let argv: Vec<String> = args.iter().map(|s| s.to_string()).collect();
             let r = run_in(&dir, &argv);
+            // an output written anywhere but the working directory is a stray file
+            let stray = std::path::Path::new(&format!("{}/{}", dir, fname)).parent().map(|p| p.join("opt.xyz"))
+                .map(|p| p != std::path::Path::new(&format!("{}/opt.xyz", dir)) && p.canonicalize().ok() != std::path::Path::new(&format!("{}/opt.xyz", dir)).canonicalize().ok() && p.exists()).unwrap_or(false);
             let _ = std::fs::remove_dir_all(&dir);
+            if stray { out.oracle_fail("an opt.xyz was written next to the input file instead of (or besides) the working directory", &format!("optrs {:?} with the input at {}", args, fname)); }
             n_runs += 1;
             let wrote = match &r.opt { Some(b) => *b != sentinel, None => false };
             let status = if args.first().map(|a| *a == *fname).unwrap_or(false) || args.iter().any(|a| a == fname) { "ok" } else { "missing" };
